@@ -92,6 +92,8 @@ def run(tier, seed, replay):
         return replay_one(v, binary, json.load(open(replay)), seed)
 
     big = tier == "thorough"
+    # several JVMs run side by side: keep each one's GC team small
+    os.environ.setdefault("JAVA_TOOL_OPTIONS", "-XX:ParallelGCThreads=3")
     kc = common.vconst(work)
     B = int(kc["SwfBlockBits"])
     nat_ns = int(kc["UDPMinNATTimeoutNs"])
@@ -137,9 +139,9 @@ def run(tier, seed, replay):
             consts=filter_consts(SIZES, B, ring, 2, 0, False, True), workers=3, timeout=900, heap="4g")
     # (F3) deep random behaviours (resets, hundreds of counters, a window that keeps sliding)
     simc = filter_consts(SIZES, B, ring, 1000, 4, False, False, rel=lambda S: rel_walk(S, B, ring[S]))
-    simc["Len"] = 200
-    add("filter-sim", "fsim", module="SimSlidingWindow", cfg="SimSlidingWindow.cfg", consts=simc, workers=1, timeout=1200,
-        simulate="num=%d" % (400 if big else 48), depth=201, seed=seed, heap="4g", keep_out=True)
+    simc["Len"] = 150 if big else 80
+    add("filter-sim", "fsim", module="SimSlidingWindow", cfg="SimSlidingWindow.cfg", consts=simc, workers=8 if big else 2, timeout=2400 if big else 900,
+        simulate="num=%d" % (64 if big else 8), depth=simc["Len"] + 1, seed=seed, heap="6g", keep_out=True)
 
     dl_srv = "{1,90,93,180,%d}" % (3 * k["Nat"])
     dl_cli = "{1,90,93,179,180}"
@@ -151,7 +153,7 @@ def run(tier, seed, replay):
         add("server-graph", "sgraph", module="MCUdpSession", cfg="MCUdpSession.cfg",
             consts=sess_consts(k, "server", True, MaxPid=2, MaxPack=2, MaxAdv=2, Skews="{0,30}", Deltas=dl_srv), workers=2, timeout=600, heap="4g")
         add("client-graph", "sgraph", module="MCUdpSession", cfg="MCUdpSession.cfg",
-            consts=sess_consts(k, "client", True, MaxPid=2, MaxPack=3, MaxAdv=3, Deltas="{93,179,180}"), workers=2, timeout=600, heap="4g")
+            consts=sess_consts(k, "client", True, MaxPid=2, MaxPack=3, MaxAdv=3, Deltas="{179,180}"), workers=2, timeout=600, heap="4g")
     else:
         add("server-design", "design", module="MCUdpSession", cfg="MCUdpSession.cfg",
             consts=sess_consts(k, "server", CSess='{"c1","c2"}', MaxPid=3, MaxPack=4, MaxAdv=3, Skews="{0,30}", Deltas=dl_srv),
@@ -251,7 +253,9 @@ def run(tier, seed, replay):
 
     # ------------------------------------------------------------------ replay: filter
     inputs = [{"behaviours": c, "seed": seed + i, "params": {"filter": fprm}} for i, c in enumerate(common.chunks(fbehs, 16)) if c]
+    t0 = time.time()
     outs = common.run_parallel(binary, "TestFilter", inputs, 1800) if inputs else []
+    vlib.log("[replay] filter: %d behaviours %.1fs" % (len(fbehs), time.time() - t0))
     fsteps = fdist = 0
     for res, out, rc in outs:
         res = common.absorb(v, res, out, rc, "filter replay")
@@ -279,7 +283,9 @@ def run(tier, seed, replay):
         i = load.index(min(load))
         buckets[i].append(j)
         load[i] += len(j["ids"]) ** j["depth"]
+    t0 = time.time()
     outs = common.run_parallel(binary, "TestFilterDFS", [{"seed": seed, "params": {"dfs": b}} for b in buckets if b], 3000)
+    vlib.log("[dfs] %d jobs depth %d %.1fs" % (len(dfs), depth, time.time() - t0))
     seqs = verdicts = 0
     for res, out, rc in outs:
         res = common.absorb(v, res, out, rc, "filter exhaustive sequences")
@@ -292,10 +298,12 @@ def run(tier, seed, replay):
                                                "bases": BASES, "modes": ["Add", "IsOk+MustAdd"]}
 
     # ------------------------------------------------------------------ replay: sessions
+    t0 = time.time()
     for i, b in enumerate(sbehs):
         b["id"] = i + 1
     outs = common.run_parallel(binary, "TestSession",
                                [{"behaviours": c, "seed": seed, "params": {"session": sess_prm}} for c in common.chunks(sbehs, 16) if c], 1800)
+    vlib.log("[replay] sessions: %d behaviours %.1fs" % (len(sbehs), time.time() - t0))
     ssteps = sdist = twins = probes = 0
     for res, out, rc in outs:
         res = common.absorb(v, res, out, rc, "session replay")
